@@ -517,11 +517,12 @@ Qed.
 
 Lemma constructed_wf e : constructed e -> wf_err e.
 Proof.
-  intros H. destruct H as [id msg fn Hfn|id etype msg p|id desc p Hok|id desc p start Hok|id msg c];
+  intros H. destruct H as [id msg fn Hfn|id etype msg p|id desc p Hok|id desc p Hln|id desc p start Hok|id msg c];
     (split; [cbn; auto using fname_of_not_bad|cbn [e_ctx new_pybtex_error new_syntax_error new_token_required new_token_required_bib new_aux_error]]).
   - exact I.
   - exact I.
   - now apply scan_state_wf.
+  - exact Hln.
   - destruct Hok as (s & -> & H1 & H2). now apply bib_ctx_wellformed.
   - exact I.
 Qed.
@@ -589,3 +590,42 @@ Qed.
 Lemma token_required_message id desc p : e_msg (new_token_required id desc p) = desc ++ k_expected
   /\ forall start, e_msg (new_token_required_bib id desc p start) = desc ++ k_expected.
 Proof. split; reflexivity. Qed.
+
+(* the exit status, with and without --strict, in one statement *)
+Lemma cmdline_status_all so c g ss :
+  g_cap g = None -> g_code g = 0%Z ->
+  Forall2 (fun e s => format_error e k_warning = Ok s) (reports c) ss ->
+  (forall e, In e (reports c) \/ ending c = Raised e -> exists s, format_error e k_error = Ok s) ->
+  ending c <> Crashed ->
+  let st := snd (cmdline_call g so c) in
+  (st = Ok 0%Z <-> reports c = [] /\ ending c = Returned) /\
+  (so = true -> reports c <> [] -> st = Ok 1%Z) /\
+  (so = false -> reports c <> [] -> ending c = Returned -> st = Ok 2%Z) /\
+  (forall f, ending c = Raised f -> st = Ok 1%Z).
+Proof.
+  intros Hc Hz HF Hren Hnc st. subst st. destruct so.
+  - pose proof (cmdline_strict_option c g Hc) as H.
+    assert (Hpre : forall e, hd_error (reports c) = Some e \/ reports c = [] /\ ending c = Raised e ->
+                             exists s, format_error e k_error = Ok s).
+    { intros e [He|[_ He]]; apply Hren; [left|now right].
+      destruct (reports c) as [|x r]; [discriminate|]. injection He as ->. now left. }
+    specialize (H Hpre). destruct (cmdline_call g true c) as [g' st]. cbn [snd].
+    destruct (reports c) as [|e r] eqn:Er.
+    + destruct (ending c) as [|f|] eqn:Ee.
+      * destruct H as [-> _]. rewrite Hz. repeat split; auto; try congruence; discriminate.
+      * destruct H as [-> _]. repeat split; try congruence; try discriminate.
+        intros [_ H]; discriminate H.
+      * congruence.
+    + destruct H as [-> _]. repeat split; try congruence; try discriminate.
+      intros [H _]; discriminate H.
+  - pose proof (cmdline_exit_status c g ss Hc HF) as H.
+    assert (Hpre : forall f, ending c = Raised f -> exists s, format_error f k_error = Ok s)
+      by (intros f Hf; apply Hren; now right).
+    specialize (H Hpre). destruct (cmdline_call g false c) as [g' st]. cbn [snd].
+    destruct H as [_ H]. destruct (ending c) as [|f|] eqn:Ee.
+    + destruct H as [-> _]. rewrite Hz. destruct (reports c) as [|e r]; repeat split; try congruence; try discriminate.
+      intros [H _]; discriminate H.
+    + destruct H as [-> _]. repeat split; try congruence; try discriminate.
+      intros [_ H]; discriminate H.
+    + congruence.
+Qed.
